@@ -8,7 +8,7 @@ import json
 from . import cases as casemod
 from . import replay, tlc
 
-MODULE_CONSTS = {"Trace_Obs": {"MCMode": "off", "OptNames": "{}"}}
+MODULE_CONSTS = {"Trace_Obs": {"MCMode": "off", "OptNames": "{}", "MBLayouts": "{}", "MBRecs": "{}"}}
 ALL = replay.ALL_ACTS
 NO_INDEX = [a for a in ALL if a != "Index"]
 
@@ -39,6 +39,27 @@ CORPORA = {
     "d2-push3": dict(acts=ALL, acts2=PUSHED, maxlen=2, preset="lean3", sim=False, lean=True, excl=EXCL_DEEP, workers=4),
     # three-step chains of structural operations and pushed-down operations
     "d3-chain1": dict(acts=CHAIN, maxlen=3, preset="lean1", sim=False, lean=True, excl=EXCL_DEEP, workers=8),
+    # rechunk by specification at every position (C14)
+    "d1-rspec": dict(acts=["RechunkSpec", "Rechunk"], maxlen=1, preset="lean", sim=False, lean=True, emit_all=True),
+    "d2-rechunk-after": dict(acts=ALL, acts2=["Rechunk", "RechunkSpec"], maxlen=2, preset="lean", sim=False, lean=True, excl=EXCL_DEEP,
+                             workers=8),
+    "d2-rechunk-before": dict(acts=["Rechunk", "RechunkSpec"], acts2=ALL, maxlen=2, preset="lean", sim=False, lean=True, excl=EXCL_DEEP,
+                              workers=8, observe_all=True),
+    # sliding-window reductions over every chunking of small 1-D sources (layout-changing kernel substitution)
+    "d1-win": dict(acts=["Window", "WindowReduce"], maxlen=1, preset="win", sim=False, emit_all=True),
+    "d1-win-q": dict(acts=["Window", "WindowReduce"], maxlen=1, preset="win", sim=False, emit_all=True,
+                     keep=lambda b: b["prog"][1].get("op", "sum") in ("sum", "max", "mean") and len(b["prog"][0]["shape"]) == 1),
+    # map_blocks with block_info / block_id above layout-changing sub-trees and below anything (C20)
+    "d1-mapblocks": dict(acts=["MapBlocks"], maxlen=1, preset="mixed", sim=False, emit_all=True),
+    "d2-above-mapblocks": dict(acts=ALL, acts2=["MapBlocks"], maxlen=2, preset="lean", sim=False, lean=True, workers=8),
+    "d2-win-mapblocks": dict(acts=["WindowReduce"], acts2=["MapBlocks"], maxlen=2, preset="win", sim=False, workers=4),
+    # the same, thinned for the quick tier: sum / max, block_info functions, 1-D sources, all chunk grids
+    "d2-win-mapblocks-q": dict(acts=["WindowReduce"], acts2=["MapBlocks"], maxlen=2, preset="win", sim=False, workers=4,
+                               keep=lambda b: b["prog"][1].get("op") in ("sum", "max") and b["prog"][-1].get("use") == "both"
+                               and len(b["prog"][0]["shape"]) == 1 and b["prog"][1]["window"] <= 3),
+    "d2-below-mapblocks": dict(acts=["MapBlocks"], acts2=ALL, maxlen=2, preset="lean", sim=False, lean=True, workers=8, excl=EXCL_DEEP),
+    "d3-mapblocks-chain": dict(acts=["MapBlocks", "Index", "Rechunk", "Transpose"], maxlen=3, preset="lean1", sim=False, lean=True,
+                               workers=8),
     # in-place histories: derive, mutate in place, derive (C11, C04)
     "d3-inplace1": dict(acts=INPLACE_ACTS, maxlen=3, preset="lean1", sim=False, lean=True, workers=8),
     "d2-inplace1-all": dict(acts=INPLACE_ACTS, maxlen=2, preset="lean1", sim=False, lean=True, workers=4, observe_all=True),
@@ -80,11 +101,14 @@ def run_plans(chk, rd, plans, observers, *, opts=None, module="Trace_Obs", shard
     for name, maxvar, stride in plans:
         kw = dict(CORPORA[name])
         observe_all = kw.pop("observe_all", False)
+        keep = kw.pop("keep", None)
         t0 = _t.time()
         behs, res = replay.generate_programs(rundir=rd, timeout=3000, **kw)
         t_gen = _t.time() - t0
         chk.add_tlc(res, f"gen:{name}")
         nbehs = len(behs)
+        if keep is not None:
+            behs = [b for b in behs if keep(b)]
         picked = stride_sample(behs, stride, chk.seed)
         del behs
         o = dict(opts)
